@@ -2,6 +2,7 @@ package props
 
 import (
 	"fmt"
+	"go/token"
 	"strings"
 	"sync"
 
@@ -52,6 +53,15 @@ func runControls(dir string) error {
 	// float -> integer conversions
 	for _, n := range []string{"goodFormatFloat", "badFormatIntFastPath"} {
 		expect("float2int", n, len(floatToIntConverts(fns[n])) > 0)
+	}
+	// cached strides
+	for _, n := range []string{"goodStrideCache", "goodStrideCacheRecomputed", "badStrideCacheStale"} {
+		_, bad := strideCacheFindings([]*ssa.Function{fns["goodStrideCache"], fns[n]}, "", func(token.Pos) string { return "" })
+		expect("stridecache", n, len(bad) > 0)
+	}
+	// dead appends
+	for _, n := range []string{"goodWorkList", "badWorkListRange"} {
+		expect("deadappend", n, len(deadAppends(fns[n])) > 0)
 	}
 	// whole-slice comparisons
 	for _, n := range []string{"goodVertexEqualXY", "badVertexEqualWhole"} {
